@@ -1,6 +1,7 @@
 SPECIFICATION LSpec
 CONSTANTS
   Replica = {A, B}
+  Remote = {origin}
   NBug = 1
   Author = {u1, u2}
   MaxHop = 1000
